@@ -1,6 +1,7 @@
 // C shim exposing a few nng internals (lmq, msg refcounts) to the C++ drivers as opaque calls,
 // so the drivers never depend on internal struct layouts.
 #include "core/nng_impl.h"
+#include <stdlib.h>
 
 void *
 sh_lmq_new(size_t cap)
